@@ -882,3 +882,5 @@ def run(L, tier):
     L.stage(r7_none_frame, L, repo)
     from pyutil import memo_sound
     L.stage(memo_sound, L, repo, "C05.R8", ("ctrl_if", "ctrl_if_trx", "data_if", "udp_link"))
+    from pyutil import hdr_ver_ownership
+    L.stage(hdr_ver_ownership, L, repo, "C05.R9")
